@@ -1,9 +1,11 @@
 (* C17 — flat-integer interface of the model for the generic OCaml driver (definitions in Codec.v,
    so that Proofs_codec.v can state theorems about exactly what is extracted here).
-   input  : direct paused ttl pvalid initphase rref0 createdBy nops, then nops records of 11 ints
-            kind a1..a10:  0 Reconcile faultmask | 1 SetRes exists label phase node sched expired owner
-            bound needp pdone | 2 SetPod exists uid node sched ctrl | 3 SetBoundPod state | 4 Tick s | 5 Restart
-   observable: per operation  nEff, nEff x (kind ok + 10 stamp ints), 14 job ints, 3 reservation ints *)
+   input  : direct paused ttl pvalid initphase rref0 createdBy tmpl nops, then nops records of 12 ints
+            kind a1..a11:  0 Reconcile faultmask | 1 SetRes exists label phase node sched expired owner
+            bound needp pdone once | 2 SetPod exists uid node sched ctrl | 3 SetBoundPod state | 4 Tick s | 5 Restart
+            | 6 Stale k | 7 Sched node | 8 Alloc uid
+   observable: per operation  nEff, nEff x (kind ok + 10 stamp ints + phase), 14 job ints, 4 reservation ints
+            (effect kinds: 1 Evict 2 CreateReservation 3 DeleteReservation 4 successful job write) *)
 From Coq Require Import List ZArith Bool.
 From Verif Require Import Lib.Wire C17.Model C17.Spec C17.Codec.
 
